@@ -512,7 +512,18 @@ class SymNum:
         return SymNum(z3.If(self.z >= 0, self.z, -self.z))
 
     def __round__(self, n=None):
-        raise EngineUnsupported("round of symbolic")
+        """round-half-even, as Python does on exactly representable (dyadic) values"""
+        if self.is_int:
+            return self
+        scale = 10 ** (n or 0)
+        y = self.z * scale
+        f = z3.ToInt(y)
+        frac = y - z3.ToReal(f)
+        half = z3.RealVal(1) / 2
+        r = z3.If(frac > half, f + 1, z3.If(frac < half, f, z3.If(f % 2 == 0, f, f + 1)))
+        if n is None:
+            return SymNum(r)
+        return SymNum(z3.ToReal(r) / scale)
 
     def __repr__(self):
         return "SymNum(%s)" % self.z
